@@ -164,6 +164,26 @@ pub fn gen_c11(rng: &mut Rng, tier: Tier) -> Result<Value, serde_json::Error> {
                 }
                 _ => {}
             }
+            // a retry of the previous request: identical, or identical except for key / algorithm
+            if let Some(prev) = calls.last().cloned() {
+                let prev: PresentCall = prev;
+                match rng.usize(10) {
+                    0 => call = prev,
+                    1 => {
+                        call = prev;
+                        if call.key.is_some() {
+                            call.alg = Some(rng.pick(&["ES999", "EdDSA", "ES256", "HS256", ""]).to_string());
+                        }
+                    }
+                    2 => {
+                        call = prev;
+                        if call.key.is_some() {
+                            call.key = Some(rng.pick(&["ecC", "edB", "ecD"]).to_string());
+                        }
+                    }
+                    _ => {}
+                }
+            }
             calls.push(call);
         }
         serde_json::to_value(HistHolderScn { kind: "hist_holder".into(), check: "C11".into(), entropy_seed: rng.next_u64(), clock_base: now, key, alg, cred, calls })
